@@ -52,6 +52,7 @@ type sysCfg struct {
 	OOOWindow       int64
 	SamplesPerChunk int
 	OOOCapMax       int64
+	Snapshot        bool `json:",omitempty"` // EnableMemorySnapshotOnShutdown (exploration only; not modelled)
 }
 
 type sys struct {
@@ -104,6 +105,7 @@ func (s *sys) options(fast bool) *tsdb.Options {
 	t.HeadChunksWriteQueueSize = 0
 	t.EnableDelayedCompaction = false
 	t.EnableFastStartup = fast
+	t.EnableMemorySnapshotOnShutdown = s.cfg.Snapshot
 	t.WALReplayConcurrency = 2
 	return t
 }
